@@ -137,7 +137,9 @@ var nameParts = []string{"a", "b", "foo", "foobar", "bar", "x", "str", "string",
 // SafeNameParts excludes '%' (percent is special in simplecolumn files).
 var safeNameParts = []string{"a", "b", "foo", "foobar", "bar", "x", "str", "a.b", "a-b", "a_b", "a~b", "~", "-", "_", ".", "0", "9z", "A", "Zz", "x1"}
 
-var stringPool = []string{"", "a", "abc", "foo", "hello world", "\"", "\\", "\\\\", "a\"b", "'", "a'b", "\n", "\r", "\t", "a\rb", "\r\n", "\x00", "a\x00b", "\x01", "\x1f", "\x7f", "\u0080", "é", "é", "ß", "日本語", "😀", "a😀b", "\U0010ffff", " ", "\ufeff", "%", "%41", "a%b", "/", "/a", "`", "`a`", "\\n", "\\x41", "\\u{41}", "{", "}", "[", "]", "[-", "-1", " ", "  x ", "a\\", "\\\"", "$", "#", "# not comment", ".", ":-", "|>", "fn:x", "\x0b", "\x0c", "\x1b", "\u0085", " "}
+var stringPool = []string{"", "a", "abc", "foo", "hello world", "\"", "\\", "\\\\", "a\"b", "'", "a'b", "\n", "\r", "\t", "a\rb", "\r\n", "\x00", "a\x00b", "\x01", "\x1f", "\x7f", "\u0080", "é", "é", "ß", "日本語", "😀", "a😀b", "\U0010ffff", " ", "\ufeff", "%", "%41", "a%b", "/", "/a", "`", "`a`", "\\n", "\\x41", "\\u{41}", "{", "}", "[", "]", "[-", "-1", " ", "  x ", "a\\", "\\\"", "$", "#", "# not comment", ".", ":-", "|>", "fn:x", "\x0b", "\x0c", "\x1b", "\u0085", " ",
+	// boundaries of the UTF-8 encoding lengths and code points that decoders treat specially
+	"\ufffd", "a\ufffdb", "\ufffc", "\ufffe", "\uffff", "\ud7ff", "\ue000", "\u07ff", "\u0800", "\U00010000", "\U0001ffff", "\U000e0001", "\u2028", "\u2029", "\u200b", "\u202e", "\u0300", "e\u0301", "\u007f\u0080", "\ufffd\ufffd"}
 
 type ConstOpts struct {
 	MaxDepth   int
